@@ -191,7 +191,7 @@ def removeOne (l : List (Option Nat)) (e : Option Nat) : Option (List (Option Na
 
 /-- **C14**: a routine that returned nil is not run again without RestartRoutine or a new routine/state; one that
 returned an error is run again only by RestartRoutine, SetContext(restart), a new routine/state or the retry
-timer; an armed retry is not lost (checked at quiescence; D14); a success resets the backoff; WaitExited returns
+timer; an armed retry is not lost (checked at quiescence points); a success resets the backoff; WaitExited returns
 the result of an instance that had not been superseded when WaitExited was called; exit callbacks are called in
 order, once per exit, all with the same error, which is the result of an instance that returned. -/
 def monC14 : ObsMonitor Obs C14St where
